@@ -284,3 +284,14 @@ func VerifC01_TransientWiped() {
 	}
 	zz.Reach("C01.transient")
 }
+
+// VNewCommittedWorld is used by the baseapp harness: a root multistore over two tree-contract substores with `commits`
+// committed versions (value of key "k" in store alpha at version v is {0, v}).
+func VNewCommittedWorld(commits int64, keepRecent, keepEvery int64) *Store {
+	w := vNewWorld(2, types.NewPruningOptions(keepRecent, keepEvery))
+	for v := int64(1); v <= commits; v++ {
+		w.write(v)
+		w.rs.Commit()
+	}
+	return w.rs
+}
